@@ -63,6 +63,7 @@ OnH(e) ==
 
 Apply(e) ==
   CASE e.e = "tmpcfg" -> Result(st, {})
+    [] e.e = "at" -> Result(st, {})      \* atomic steps of the stack list: judged by TempListTrace
     [] e.e = "tstart" -> OnTstart(e)
     [] e.e = "got" -> OnGot(e)
     [] e.e = "scope_begin" -> OnScopeBegin(e)
